@@ -58,6 +58,11 @@ pub enum Observed {
     Write { node: u32, value: i64 },
     Tick(i64),
     PubMode(i64, bool),
+    ModSub { sub_id: i64, ok: bool, interval: i64 },
+    SetMode { sub_id: i64, item_id: u32, mode: i64, ok: bool },
+    ModItem { sub_id: i64, item_id: u32, handle: u32, interval_sampling: bool, ok: bool },
+    Trigger { sub_id: i64, ok: bool },
+    Resend(i64, bool),
 }
 
 pub struct StepOut {
@@ -466,6 +471,178 @@ impl Pipe {
                 };
                 self.finish(txt, Observed::ItemDeleted { sub_id: sid, item_id: iid, ok })
             }
+            ["modsub", sid, pr, iv, ka, life] => {
+                let (sid, pr, iv, ka, life) = match (p(sid), p(pr), p(iv), p(ka), p(life)) {
+                    (Some(a), Some(b), Some(c), Some(d), Some(e)) => (a, b, c, d, e),
+                    _ => return Self::bad(),
+                };
+                let req = ModifySubscriptionRequest {
+                    request_header: RequestHeader::dummy(),
+                    subscription_id: self.real_sub(sid),
+                    requested_publishing_interval: (iv * UNIT_MS) as f64,
+                    requested_lifetime_count: life as u32,
+                    requested_max_keep_alive_count: ka as u32,
+                    max_notifications_per_publish: 0,
+                    priority: pr as u8,
+                };
+                match self.vs.modify_subscription(&req) {
+                    SupportedMessage::ModifySubscriptionResponse(r) => {
+                        if r.revised_publishing_interval != (iv * UNIT_MS) as f64
+                            || r.revised_lifetime_count != life as u32
+                            || r.revised_max_keep_alive_count != ka as u32
+                        {
+                            return StepOut {
+                                line: format!(
+                                    "ok revised:{}:{}:{}",
+                                    r.revised_publishing_interval, r.revised_lifetime_count, r.revised_max_keep_alive_count
+                                ),
+                                observed: Observed::None,
+                                responses: vec![],
+                                other_responses: vec![],
+                            };
+                        }
+                        self.finish("1".to_string(), Observed::ModSub { sub_id: sid, ok: true, interval: iv })
+                    }
+                    _ => self.finish("0".to_string(), Observed::ModSub { sub_id: sid, ok: false, interval: iv }),
+                }
+            }
+            ["setpos", sid, st, life, ka, first] => {
+                let (sid, st, life, ka) = match (p(sid), p(st), p(life), p(ka)) {
+                    (Some(a), Some(b), Some(c), Some(d)) => (a, b, c, d),
+                    _ => return Self::bad(),
+                };
+                let ok = self.vs.set_position(self.real_sub(sid), st.clamp(0, 4) as u8, life as u32, ka as u32, *first == "1");
+                self.finish(if ok { "1" } else { "0" }.to_string(), Observed::None)
+            }
+            ["resend", sid] => {
+                let sid = match p(sid) {
+                    Some(s) => s,
+                    None => return Self::bad(),
+                };
+                let ok = self.vs.resend_data(self.real_sub(sid));
+                self.finish(if ok { "1" } else { "0" }.to_string(), Observed::Resend(sid, ok))
+            }
+            ["transfer", sid] => {
+                let sid = match p(sid) {
+                    Some(s) => s,
+                    None => return Self::bad(),
+                };
+                let req = TransferSubscriptionsRequest {
+                    request_header: RequestHeader::dummy(),
+                    subscription_ids: Some(vec![self.real_sub(sid)]),
+                    send_initial_values: false,
+                };
+                let txt = match self.vs.transfer_subscriptions(&req) {
+                    SupportedMessage::TransferSubscriptionsResponse(r) => {
+                        r.results.map(|v| v.iter().map(|t| sc_name(t.status_code)).collect::<Vec<_>>().join("+")).unwrap_or_default()
+                    }
+                    SupportedMessage::ServiceFault(f) => sc_name(f.response_header.service_result),
+                    _ => "unexpected".to_string(),
+                };
+                self.finish(txt, Observed::None)
+            }
+            ["setmode", sid, iid, mode] => {
+                let (sid, iid, mode) = match (p(sid), p(iid), p(mode)) {
+                    (Some(a), Some(b), Some(c)) => (a, b as u32, c),
+                    _ => return Self::bad(),
+                };
+                let req = SetMonitoringModeRequest {
+                    request_header: RequestHeader::dummy(),
+                    subscription_id: self.real_sub(sid),
+                    monitoring_mode: match mode {
+                        0 => MonitoringMode::Disabled,
+                        1 => MonitoringMode::Sampling,
+                        _ => MonitoringMode::Reporting,
+                    },
+                    monitored_item_ids: Some(vec![iid]),
+                };
+                let (txt, ok) = match self.vs.set_monitoring_mode(&req) {
+                    SupportedMessage::SetMonitoringModeResponse(r) => {
+                        let s = r.results.as_ref().unwrap()[0];
+                        (sc_name(s), s.is_good())
+                    }
+                    SupportedMessage::ServiceFault(f) => (sc_name(f.response_header.service_result), false),
+                    _ => ("unexpected".to_string(), false),
+                };
+                self.finish(txt, Observed::SetMode { sub_id: sid, item_id: iid, mode, ok })
+            }
+            ["moditem", sid, iid, h, qs, dis, samp] => {
+                let (sid, iid, h, qs) = match (p(sid), p(iid), p(h), p(qs)) {
+                    (Some(a), Some(b), Some(c), Some(d)) => (a, b as u32, c as u32, d as u32),
+                    _ => return Self::bad(),
+                };
+                let sampling = if *samp == "-" {
+                    -1.0
+                } else {
+                    match p(samp) {
+                        Some(k) => (k * UNIT_MS) as f64,
+                        None => return Self::bad(),
+                    }
+                };
+                let req = ModifyMonitoredItemsRequest {
+                    request_header: RequestHeader::dummy(),
+                    subscription_id: self.real_sub(sid),
+                    timestamps_to_return: TimestampsToReturn::Neither,
+                    items_to_modify: Some(vec![MonitoredItemModifyRequest {
+                        monitored_item_id: iid,
+                        requested_parameters: MonitoringParameters {
+                            client_handle: h,
+                            sampling_interval: sampling,
+                            filter: ExtensionObject::null(),
+                            queue_size: qs,
+                            discard_oldest: *dis == "1",
+                        },
+                    }]),
+                };
+                let (txt, ok) = match self.vs.modify_monitored_items(self.address_space.clone(), &req) {
+                    SupportedMessage::ModifyMonitoredItemsResponse(r) => {
+                        let s = &r.results.as_ref().unwrap()[0];
+                        (sc_name(s.status_code), s.status_code.is_good())
+                    }
+                    SupportedMessage::ServiceFault(f) => (sc_name(f.response_header.service_result), false),
+                    _ => ("unexpected".to_string(), false),
+                };
+                self.finish(txt, Observed::ModItem { sub_id: sid, item_id: iid, handle: h, interval_sampling: *samp == "-", ok })
+            }
+            ["trigger", sid, iid, add, rem] => {
+                let (sid, iid) = match (p(sid), p(iid)) {
+                    (Some(a), Some(b)) => (a, b as u32),
+                    _ => return Self::bad(),
+                };
+                let list = |t: &str| -> Option<Option<Vec<u32>>> {
+                    if t == "-" {
+                        return Some(None);
+                    }
+                    let inner = &t[1..t.len() - 1];
+                    if inner.is_empty() {
+                        return Some(Some(vec![]));
+                    }
+                    inner.split(',').map(|x| x.parse::<u32>().ok()).collect::<Option<Vec<u32>>>().map(Some)
+                };
+                let (add, rem) = match (list(add), list(rem)) {
+                    (Some(a), Some(b)) => (a, b),
+                    _ => return Self::bad(),
+                };
+                let req = SetTriggeringRequest {
+                    request_header: RequestHeader::dummy(),
+                    subscription_id: self.real_sub(sid),
+                    triggering_item_id: iid,
+                    links_to_add: add,
+                    links_to_remove: rem,
+                };
+                let show = |v: &Option<Vec<StatusCode>>| match v {
+                    None => "-".to_string(),
+                    Some(v) => v.iter().map(|s| if s.is_good() { 'G' } else { 'B' }).collect::<String>(),
+                };
+                let (txt, ok) = match self.vs.set_triggering(&req) {
+                    SupportedMessage::SetTriggeringResponse(r) => {
+                        (format!("{}/{}", show(&r.add_results), show(&r.remove_results)), true)
+                    }
+                    SupportedMessage::ServiceFault(f) => (sc_name(f.response_header.service_result), false),
+                    _ => ("unexpected".to_string(), false),
+                };
+                self.finish(txt, Observed::Trigger { sub_id: sid, ok })
+            }
             ["write", node, v] => {
                 let (node, v) = match (p(node), p(v)) {
                     (Some(a), Some(b)) => (a as u32, b),
@@ -573,6 +750,12 @@ pub struct GenWeights {
     pub item: u32,
     pub delitem: u32,
     pub pubmode: u32,
+    pub modsub: u32,
+    pub setmode: u32,
+    pub moditem: u32,
+    pub trigger: u32,
+    pub resend: u32,
+    pub transfer: u32,
     pub max_len: i64,
 }
 
@@ -635,7 +818,7 @@ pub fn gen_case(rng: &mut crate::common::Rng, w: &GenWeights, thorough: bool, ou
             2 => w.publish / 3 + 1,
             _ => w.publish * (1 + rng.below(3) as u32),
         };
-        match rng.weighted(&[w.write, w.tick, pub_w, w.republish, w.sub, w.delsub, w.item, w.delitem, w.pubmode]) {
+        match rng.weighted(&[w.write, w.tick, pub_w, w.republish, w.sub, w.delsub, w.item, w.delitem, w.pubmode, w.modsub, w.setmode, w.moditem, w.trigger, w.resend, w.transfer]) {
             0 => {
                 out.push(format!("write {} {}", rng.range(1, nodes), next_val));
                 if !rng.chance(1, 6) {
@@ -726,10 +909,264 @@ pub fn gen_case(rng: &mut crate::common::Rng, w: &GenWeights, thorough: bool, ou
                     out.push(format!("delitem {} {}", pick_sub(rng, &subs, next_sub), rng.range(0, 4)));
                 }
             }
-            _ => {
+            8 => {
                 let s = pick_sub(rng, &subs, next_sub);
                 out.push(format!("pubmode {} {}", s, rng.below(2)));
+            }
+            9 => {
+                let s = pick_sub(rng, &subs, next_sub);
+                let ka = *rng.pick(&[1i64, 2, 3, 5]);
+                let life = 3 * ka + *rng.pick(&[0i64, 0, 1, 4, 20]);
+                let iv = *rng.pick(&[1i64, 1, 2, 3]);
+                let prio = *rng.pick(&[0i64, 1, 5, 200, 255]);
+                out.push(format!("modsub {} {} {} {} {}", s, prio, iv, ka, life));
+            }
+            10 => {
+                let (s, i) = if !items.is_empty() && !rng.chance(1, 8) { *rng.pick(&items) } else { (pick_sub(rng, &subs, next_sub), rng.range(0, 4)) };
+                out.push(format!("setmode {} {} {}", s, i, rng.below(3)));
+            }
+            11 => {
+                let (s, i) = if !items.is_empty() && !rng.chance(1, 8) { *rng.pick(&items) } else { (pick_sub(rng, &subs, next_sub), rng.range(0, 4)) };
+                let qs = *rng.pick(&[0i64, 1, 1, 2, 3, 5, 10, 100]);
+                let samp = match rng.weighted(&[4, 3, 1]) {
+                    0 => "-".to_string(),
+                    1 => "1".to_string(),
+                    _ => rng.range(2, 4).to_string(),
+                };
+                let h = if rng.chance(1, 3) { next_handle += 1; next_handle - 1 } else { 0 };
+                // handle 0 = keep: the generator does not track handles, so a fresh unique one is used otherwise
+                let h = if h == 0 { next_handle += 1; next_handle - 1 } else { h };
+                out.push(format!("moditem {} {} {} {} {} {}", s, i, h, qs, rng.below(2), samp));
+            }
+            12 => {
+                let (s, i) = if !items.is_empty() && !rng.chance(1, 8) { *rng.pick(&items) } else { (pick_sub(rng, &subs, next_sub), rng.range(0, 4)) };
+                let lst = |rng: &mut crate::common::Rng| -> String {
+                    match rng.weighted(&[2, 1, 6]) {
+                        0 => "-".to_string(),
+                        1 => "[]".to_string(),
+                        _ => {
+                            let k = rng.range(1, 3);
+                            let v: Vec<String> = (0..k).map(|_| rng.range(0, 4).to_string()).collect();
+                            format!("[{}]", v.join(","))
+                        }
+                    }
+                };
+                let a = lst(rng);
+                let r = lst(rng);
+                out.push(format!("trigger {} {} {} {}", s, i, a, r));
+            }
+            13 => {
+                out.push(format!("resend {}", pick_sub(rng, &subs, next_sub)));
+            }
+            _ => {
+                out.push(format!("transfer {}", pick_sub(rng, &subs, next_sub)));
             }
         }
     }
 }
+
+/// Small-scope enumeration of ONE step of the subscription state machine in the real pipeline:
+/// every (state, lifetime counter, keep-alive counter, first_message_sent, publishing enabled, data
+/// available, request queued) position is set up with `setpos` and followed by one timer tick with the
+/// interval elapsed, one without, or one publish request.  `k` selects the position.
+pub fn single_step_count() -> usize {
+    3 * 3 * 2 * 2 * 2 * 2 * 2 * 3
+}
+
+pub fn gen_single_step(k: usize, out: &mut Vec<String>) {
+    let mut k = k % single_step_count();
+    let mut take = |n: usize| {
+        let r = k % n;
+        k /= n;
+        r
+    };
+    let state = [2, 3, 4][take(3)];
+    let life = [1, 2, 7][take(3)];
+    let ka = [1, 2][take(2)];
+    let first = take(2);
+    let enabled = take(2);
+    let data = take(2);
+    let req = take(2);
+    let last = take(3);
+    out.push("reset 1 3".to_string());
+    out.push("sub 0 1 3 20 1".to_string());
+    out.push("item 1 1 1 2 1 2 -".to_string());
+    out.push("tick 1".to_string());
+    out.push("publish 1 -".to_string());
+    out.push("tick 1".to_string());
+    if enabled == 0 {
+        out.push("pubmode 1 0".to_string());
+    }
+    if data == 1 {
+        out.push("write 1 5".to_string());
+    }
+    if req == 1 {
+        out.push("publish 2 -".to_string());
+    }
+    out.push(format!("setpos 1 {} {} {} {}", state, life, ka, first));
+    out.push(match last {
+        0 => "tick 1".to_string(),
+        1 => "tick 0".to_string(),
+        _ => "publish 3 -".to_string(),
+    });
+    // what happens next is part of the case too: the request side, then two more intervals
+    out.push("publish 4 -".to_string());
+    out.push("tick 1".to_string());
+    out.push("tick 1".to_string());
+}
+
+/// Directed scenarios with randomised parameters for the branches a random walk rarely reaches:
+/// triggering links onto Sampling / Reporting / Disabled / deleted items, an item queue that holds more
+/// than a ModifyMonitoredItems leaves room for, ResendData, ModifySubscription in every state,
+/// monitoring mode changes with queued values, Republish of acknowledged and of evicted numbers.
+pub fn gen_scenario(rng: &mut crate::common::Rng, out: &mut Vec<String>) {
+    let maxq = *rng.pick(&[2i64, 3, 5, 10]);
+    out.push(format!("reset 2 {}", maxq));
+    match rng.below(6) {
+        0 => {
+            // triggering: item 1 reports and triggers 2 (Sampling), 3 (Reporting), 4 (Disabled), 5 (deleted)
+            let iv = rng.range(1, 2);
+            out.push(format!("sub 0 {} 3 20 1", iv));
+            out.push("item 1 1 1 2 1 2 -".to_string());
+            out.push(format!("item 1 2 2 {} 1 1 -", rng.range(1, 3)));
+            out.push("item 1 3 2 2 1 2 -".to_string());
+            out.push("item 1 4 2 2 1 0 -".to_string());
+            out.push("item 1 5 2 2 1 1 -".to_string());
+            out.push("trigger 1 1 [2,3,4,5,1,9] -".to_string());
+            out.push("delitem 1 5".to_string());
+            if rng.chance(1, 2) {
+                out.push("trigger 1 2 [1] [3]".to_string());
+            }
+            let mut v = 1;
+            for _ in 0..rng.range(4, 9) {
+                match rng.below(5) {
+                    0 => out.push(format!("write 1 {}", v)),
+                    1 => out.push(format!("write 2 {}", v)),
+                    2 => out.push(format!("publish {} -", v)),
+                    3 => out.push(format!("tick {}", rng.range(0, 2))),
+                    _ => out.push(format!("setmode 1 {} {}", rng.range(1, 4), rng.below(3))),
+                }
+                v += 1;
+            }
+            out.push("trigger 1 1 - [2,7]".to_string());
+            out.push("write 1 99".to_string());
+            out.push("tick 2".to_string());
+            out.push("publish 90 -".to_string());
+            out.push("tick 2".to_string());
+        }
+        1 => {
+            // an item sampling faster than the publishing interval fills its queue; then it is shrunk
+            let qs = rng.range(2, maxq);
+            out.push(format!("sub 0 {} 3 30 1", rng.range(3, 5)));
+            out.push(format!("item 1 1 1 {} {} 2 1", qs, rng.below(2)));
+            out.push("tick 1".to_string());
+            for v in 1..=(qs + rng.range(0, 2)) {
+                out.push(format!("write 1 {}", v));
+                out.push("tick 1".to_string());
+                if rng.chance(1, 6) {
+                    out.push(format!("publish {} -", v));
+                }
+            }
+            out.push(format!("moditem 1 1 {} {} {} {}", 7, rng.range(0, qs - 1), rng.below(2), if rng.chance(1, 2) { "-" } else { "1" }));
+            out.push("publish 50 -".to_string());
+            out.push("tick 5".to_string());
+            out.push("tick 5".to_string());
+        }
+        2 => {
+            // ResendData in every state, consumed by a timer tick or by a publish request
+            out.push(format!("sub 0 1 {} 20 {}", rng.range(1, 3), if rng.chance(1, 5) { 0 } else { 1 }));
+            out.push(format!("item 1 1 1 {} 1 {} {}", rng.range(1, 3), rng.range(1, 2), if rng.chance(1, 2) { "-" } else { "2" }));
+            for k in 0..rng.range(2, 8) {
+                match rng.below(4) {
+                    0 => out.push("tick 1".to_string()),
+                    1 => out.push(format!("publish {} -", k + 1)),
+                    2 => out.push(format!("write 1 {}", k + 1)),
+                    _ => out.push("tick 0".to_string()),
+                }
+            }
+            out.push("resend 1".to_string());
+            out.push(if rng.chance(1, 2) { "tick 1".to_string() } else { "publish 40 -".to_string() });
+            out.push("resend 7".to_string());
+            out.push("tick 1".to_string());
+            out.push("publish 41 -".to_string());
+            out.push("tick 1".to_string());
+        }
+        3 => {
+            // ModifySubscription in every state (Creating, Normal, Late, KeepAlive), each parameter
+            out.push("sub 5 2 2 8 1".to_string());
+            if rng.chance(1, 2) {
+                out.push("sub 5 1 3 9 1".to_string());
+            }
+            out.push("item 1 1 1 2 1 2 -".to_string());
+            let pre = rng.below(4);
+            if pre >= 1 {
+                out.push("tick 1".to_string());
+            }
+            if pre == 2 {
+                out.push("tick 2".to_string()); // Late (no request)
+            }
+            if pre == 3 {
+                out.push("publish 1 -".to_string());
+                out.push("tick 2".to_string());
+                out.push("tick 2".to_string()); // KeepAlive
+            }
+            let (p, i, k, l) = match rng.below(5) {
+                0 => (200, 2, 2, 8),
+                1 => (5, 1, 2, 8),
+                2 => (5, 2, 1, 8),
+                3 => (5, 2, 2, 6),
+                _ => (rng.range(0, 255), rng.range(1, 3), rng.range(1, 3), rng.range(9, 12)),
+            };
+            out.push(format!("modsub 1 {} {} {} {}", p, i, k, l));
+            out.push("modsub 9 1 1 1 3".to_string());
+            for k in 0..rng.range(3, 10) {
+                match rng.below(3) {
+                    0 => out.push("tick 1".to_string()),
+                    1 => out.push(format!("publish {} -", 10 + k)),
+                    _ => out.push(format!("write 1 {}", k + 1)),
+                }
+            }
+        }
+        4 => {
+            // monitoring mode changes while values are queued in the item
+            out.push(format!("sub 0 {} 3 30 1", rng.range(2, 4)));
+            out.push(format!("item 1 1 1 3 1 {} 1", rng.range(1, 2)));
+            out.push("tick 1".to_string());
+            for v in 1..=rng.range(1, 4) {
+                out.push(format!("write 1 {}", v));
+                out.push("tick 1".to_string());
+            }
+            for _ in 0..rng.range(1, 4) {
+                out.push(format!("setmode 1 1 {}", rng.below(3)));
+                out.push(format!("write 1 {}", 20 + rng.below(5)));
+                out.push(format!("tick {}", rng.range(1, 4)));
+            }
+            out.push("publish 1 -".to_string());
+            out.push("setmode 1 9 2".to_string());
+            out.push("setmode 8 1 2".to_string());
+            out.push("delitem 1 1".to_string());
+            out.push("tick 4".to_string());
+        }
+        _ => {
+            // Republish of acknowledged and of evicted sequence numbers; subscription deleted with data queued
+            out.push("sub 0 1 1 30 1".to_string());
+            out.push("item 1 1 1 1 1 2 -".to_string());
+            let n = rng.range(5, 7);
+            for v in 1..=n {
+                out.push(format!("publish {} {}", v, if v == 3 { "[1.1]" } else { "-" }));
+                out.push("tick 1".to_string());
+                out.push(format!("write 1 {}", v));
+            }
+            out.push("republish 1 1".to_string());
+            out.push("republish 1 2".to_string());
+            out.push(format!("republish 1 {}", n));
+            out.push(format!("republish 1 {}", n + 3));
+            out.push("tick 1".to_string());
+            out.push("tick 1".to_string());
+            out.push("delsub 1".to_string());
+            out.push("republish 1 2".to_string());
+            out.push("republish 5 1".to_string());
+        }
+    }
+}
+
